@@ -52,6 +52,8 @@ class Store:
         self.tree: dict = {}
         self.hdr_seq = [cfg.get("seq0", 3), cfg.get("seq0", 3) - 1]
         self.obj = [[0, 0, 0, 0] for _ in range(OBJ_ENTRIES)]  # type, offset, size, allocated
+        self.obj2: list | None = None  # entries of an additional object table (registered in the first one), if any
+        self.obj2_off = None
         self.tables: dict[int, dict] = {}  # index -> {"seq","off","size","buf","end","slot"}
         self.loc: dict[tuple, tuple[int, int, int]] = {}  # path -> (table index, entry offset, entry size)
         self.next_off = 0x3000
@@ -83,12 +85,36 @@ class Store:
         return out
 
     def _obj_slot(self) -> int:
+        """Slot for a new object. Slots >= 1000 live in the additional object table."""
+        if self.cfg.get("second_objtable") and self.rng.random() < 0.5:
+            if self.obj2 is None:
+                # create the additional object table (fully written first), then register it in the first table
+                self.obj2 = [[0, 0, 0, 0] for _ in range(32)]
+                self.obj2_off = self._alloc(ALIGN)
+                blob = struct.pack("<II", SIG_OBJTABLE, len(self.obj2)) + b"".join(struct.pack("<BIQIB", 0, 0, 0, 0, 0) for _ in self.obj2)
+                self._w(self.obj2_off, blob)
+                free1 = [i for i, e in enumerate(self.obj) if e[0] == 0 and e[3] == 0]
+                self.obj[free1[0]] = [OBJ_OBJTABLE, self.obj2_off, ALIGN, 1]
+                self._write_obj_entry(free1[0])
+            free2 = [i for i, e in enumerate(self.obj2) if e[0] == 0 and e[3] == 0]
+            if free2:
+                return 1000 + free2[0]
         free = [i for i, e in enumerate(self.obj) if e[0] == 0 and e[3] == 0]
         return self.rng.choice(free[:8]) if self.cfg.get("scatter_obj") else free[0]
 
+    def _get_obj(self, i: int):
+        return self.obj2[i - 1000] if i >= 1000 else self.obj[i]
+
+    def _set_obj(self, i: int, val):
+        if i >= 1000:
+            self.obj2[i - 1000] = val
+        else:
+            self.obj[i] = val
+
     def _write_obj_entry(self, i: int):
-        t, o, s, a = self.obj[i]
-        self._w(0x2008 + 18 * i, struct.pack("<BIQIB", t, 0, o, s, a))
+        t, o, s, a = self._get_obj(i)
+        base = (self.obj2_off + 8 + 18 * (i - 1000)) if i >= 1000 else (0x2008 + 18 * i)
+        self._w(base, struct.pack("<BIQIB", t, 0, o, s, a))
 
     def _commit(self):
         self.commits.append((len(self.writes), copy.deepcopy(self.tree)))
@@ -114,10 +140,10 @@ class Store:
                 foff = self._alloc(len(vb))
                 self._w(foff, vb)
                 slot = self._obj_slot()
-                self.obj[slot] = [OBJ_FILE, foff, (len(vb) + ALIGN - 1) // ALIGN * ALIGN, 1]
+                self._set_obj(slot, [OBJ_FILE, foff, (len(vb) + ALIGN - 1) // ALIGN * ALIGN, 1])
                 self._write_obj_entry(slot)
                 val = struct.pack("<IQ", len(vb), foff)
-                flags = 0x01
+                flags = 0x01 | (0x02 if self.rng.random() < 0.5 else 0)  # bit 0x02 occurs on strings in the real samples
             else:
                 val = struct.pack("<I", len(vb)) + vb
                 if self.rng.random() < 0.5:
@@ -165,20 +191,20 @@ class Store:
         self._w(new_off, bytes(t["buf"]))
         style = self.rng.choice(["inplace", "add_then_free", "add_keep"]) if old_slot is not None else "add"
         if style == "inplace":
-            self.obj[old_slot] = [OBJ_KEYTABLE, new_off, t["size"], 1]
+            self._set_obj(old_slot, [OBJ_KEYTABLE, new_off, t["size"], 1])
             self._write_obj_entry(old_slot)
             t["slot"] = old_slot
             self._after_commit()
         else:
             slot = self._obj_slot()
-            self.obj[slot] = [OBJ_KEYTABLE, new_off, t["size"], 1]
+            self._set_obj(slot, [OBJ_KEYTABLE, new_off, t["size"], 1])
             self._write_obj_entry(slot)
             t["slot"] = slot
             self._after_commit()
             if style == "add_then_free" and old_slot is not None:
                 how = self.rng.choice(["free", "unalloc", "zero"])
-                o = self.obj[old_slot]
-                self.obj[old_slot] = [OBJ_FREE, o[1], o[2], 1] if how == "free" else [o[0], o[1], o[2], 0] if how == "unalloc" else [0, 0, 0, 0]
+                o = self._get_obj(old_slot)
+                self._set_obj(old_slot, [OBJ_FREE, o[1], o[2], 1] if how == "free" else [o[0], o[1], o[2], 0] if how == "unalloc" else [0, 0, 0, 0])
                 self._write_obj_entry(old_slot)
                 self._after_commit()
         t["off"] = new_off
@@ -283,11 +309,23 @@ def tree_at(store: Store, nwrites: int) -> dict:
 def decode(raw: bytes) -> dict:
     h1 = struct.unpack("<IIHIQIQQI", raw[0:46])
     h2 = struct.unpack("<IIHIQIQQI", raw[0x1000 : 0x1000 + 46])
-    n = struct.unpack("<I", raw[0x2004:0x2008])[0]
     tables = {}
     files = {}
-    for i in range(n):
-        t, _, off, size, alloc = struct.unpack("<BIQIB", raw[0x2008 + 18 * i : 0x2008 + 18 * i + 18])
+    objtabs = [0x2000]
+    objents = []
+    seen = set()
+    while objtabs:
+        base = objtabs.pop(0)
+        if base in seen:
+            continue
+        seen.add(base)
+        n = struct.unpack("<I", raw[base + 4 : base + 8])[0]
+        for i in range(n):
+            e = struct.unpack("<BIQIB", raw[base + 8 + 18 * i : base + 8 + 18 * i + 18])
+            objents.append(e)
+            if e[0] == OBJ_OBJTABLE and e[4]:
+                objtabs.append(e[2])
+    for t, _, off, size, alloc in objents:
         if not alloc:
             continue
         if t == OBJ_KEYTABLE:
